@@ -28,6 +28,20 @@ inline function type must be the model's, and an overwrite between two inline fu
 name leaves out>` (Dom clauses, findings) — or `overwrite:anonymous-signature:<component>` when the two types must have
 different names (theorems `anonName_encodes_throws`, `anonName_bare_throws_distinct`): never a finding.
 
+The same declaration twice: two inline function types of one namespace *and one file* that are written alike in every component,
+parameter names included (dump `written` of the parser's declaration, positions left out; `anonCause` = `identical-declaration`,
+`anonCause_of_no_difference`), are one declaration. What a generator renders is a function of the declaration, so their writes
+of the shared path have to be byte-identical: if they differ the key is `overwrite:identical-declarations-differ` (never a
+finding) — `overwrite:duplicate-declaration` stays for equal types from different files / under other parameter names.
+
+Reserved words as namespaces (`keyword_case`): a namespace component that is a reserved word of a target language (a fixed core +
+samples of the live keyword tables of the generators) next to the names an *escaping* of the word would give (`native_`,
+`native__`, `Native`, `NATIVE`, `native_native`, …), equally named declarations of every kind inside; as the last component, below a
+common parent, as the parent of equal sub-namespaces, at both levels; default / random / prefixed identifier styles; all targets.
+Every generator computes its namespace / package / directory / prefix from these components: the outcome per target is distinct
+files or a refusal with a diagnostic (an `ApplicationException`; what a refused call wrote before counts like any other write; the
+model's write list is compared for the targets that ran to the end, its collisions are predicted for all).
+
 Qualified references (`qualified_case`): the synthetic name spells a type reference as it is written, so `(v: model.user)` is named
 `function_…_model.user_void` — a declaration name with dots. Families whose members differ in one namespace-qualified reference only
 (relative `model.user`, absolute `.model.user`, partially qualified `util.local.user` / `shared.user`, one to three components; as a
@@ -85,6 +99,7 @@ THEOREMS = [
     "Pydjinni.GenC.header_keeps_stem",
     "Pydjinni.GenC.anonName_flat_injective",
     "Pydjinni.GenC.qualified_signatures_distinct_files",
+    "Pydjinni.GenC.anonCause_of_no_difference",
     "Pydjinni.GenC.no_collisions_nodup",
     "Pydjinni.GenC.nodup_noOverwrite",
     "Pydjinni.SysC.write_unconditional",
@@ -126,6 +141,17 @@ CORPUS = [
              "namespace ui__kit.core {\n  view = record { f0: bool; }\n}\n"},
     {"name": "letter case", "naming": "default",
      "text": "alpha = record { f0: i32; }\nAlpha = record { f0: string; }\n"},
+    # one declaration written several times (same namespace, same file, same signature, same parameter names): one content
+    {"name": "the same inline function type on three lines of one namespace", "naming": "default",
+     "text": "namespace a {\n  i = interface +cpp {\n    m0(cb: (x: i32));\n    m1(cb: (x: i32));\n  }\n  j = interface +cpp +java +objc {\n    m0(cb: (x: i32));\n  }\n}\n"
+             "k = interface { m0(cb: (v: string) -> bool);\n m1(p0: i32, cb: (v: string) -> bool); }\n"},
+    # reserved words as namespace components next to what an escaping would turn them into: distinct files or a refusal
+    {"name": "namespace native next to native_", "naming": "default", "refusal_ok": True,
+     "text": "namespace native {\n  settings = record { f0: i32; }\n  state = enum { item_a; }\n}\nnamespace native_ {\n  settings = record { f0: string; }\n  state = enum { item_b; }\n}\n"},
+    {"name": "namespaces class, class_ and Class below a parent", "naming": "default", "refusal_ok": True,
+     "text": "namespace app.class {\n  settings = record { f0: i32; }\n}\nnamespace app.class_ {\n  settings = record { f0: string; }\n}\nnamespace app {\n  namespace Class {\n    settings = record { f0: bool; }\n  }\n}\n"},
+    {"name": "namespaces final / final_ as parents of equal sub-namespaces", "naming": "random", "refusal_ok": True,
+     "text": "namespace final.model {\n  handler = interface +java { m0(cb: (v: i32) -> bool); }\n}\nnamespace final_.model {\n  handler = interface +java { m1(cb: (w: i32) -> bool); }\n}\n"},
 ]
 
 
@@ -152,7 +178,7 @@ def corpus_case(c):
     r = random.Random("corpus/c15/" + c["name"])
     opts = sysgen.make_options(r, sysgen.TARGETS, out_kind="rel", naming=c["naming"], extras=False)
     return job_of({"proj/main.pydjinni": c["text"], **c.get("more", {})}, "proj/main.pydjinni", opts, list(sysgen.TARGETS)), \
-        {"stress": "corpus:" + c["name"], "naming": c["naming"], "targets": list(sysgen.TARGETS), "features": []}
+        {"stress": "corpus:" + c["name"], "naming": c["naming"], "targets": list(sysgen.TARGETS), "features": [], "refusal_ok": bool(c.get("refusal_ok"))}
 
 
 # -------------------------------------------------------------------------------------------------
@@ -507,6 +533,96 @@ def family_case(seed_key: str, i: int):
     return job, {"stress": "family:" + "+".join(dims) + ":" + layout, "naming": naming, "targets": list(sysgen.TARGETS), "features": []}
 
 
+# -------------------------------------------------------------------------------------------------
+# namespaces named like reserved words of the target languages, next to their escaped look-alikes
+# -------------------------------------------------------------------------------------------------
+
+# a fixed core (always exercised) + seeded samples of the live keyword tables of the generators
+KEYWORD_CORE = ["native", "class", "package", "delete", "final", "template", "id", "self", "gcnew", "new", "switch", "default", "register",
+                "extension", "protocol", "super", "abstract", "union", "internal", "in"]
+KEYWORD_LAYOUTS = ["top", "under-parent", "as-parent", "both-levels"]
+
+
+def look_alikes(w: str) -> list[str]:
+    """what an escaping scheme would turn the word into — all ordinary IDL identifiers"""
+    return [w + "_", w + "__", w + "_" + w, w.capitalize(), w.upper(), w + "0", "x_" + w, w[0] + "_" + w[1:] if len(w) > 1 else w + "_1"]
+
+
+def keyword_pool(tables) -> list[str]:
+    import re
+    ident = re.compile(r"^[a-zA-Z][a-zA-Z0-9_]*$")
+    idl = set(tables.get("idl_keywords", ()))
+    live = sorted({w for ws in tables.get("keywords", {}).values() for w in ws if ident.match(w) and w not in idl})
+    return [w for w in KEYWORD_CORE if w not in idl], live
+
+
+def keyword_case(seed_key: str, i: int, tables):
+    """Namespace components that are reserved words of a target language (C++, Java, Objective-C, Swift, C++/CLI) together
+    with the names an *escaping* of such a word would produce (`native` / `native_`, `class` / `class_` / `Class`, …), holding
+    equally named declarations of every kind; the word as the last component, below a common parent, as the parent of equal
+    sub-namespaces, or at both levels. Every generator computes a namespace / package / directory / type-name prefix from
+    these components. The outcome per target must be distinct files — or a refusal with a diagnostic (an
+    `ApplicationException`; files written before the refusal count like any others)."""
+    r = random.Random(seed_key)
+    core, live = keyword_pool(tables)
+    w = core[i % len(core)] if i % 2 == 0 or not live else r.choice(live)
+    alikes = r.sample(look_alikes(w), r.choice([1, 2, 2, 3]))
+    if i % 3 == 0 and w + "_" not in alikes:
+        alikes[0] = w + "_"
+    comps = [w] + alikes
+    r.shuffle(comps)
+    layout = KEYWORD_LAYOUTS[(i // 2) % len(KEYWORD_LAYOUTS)]
+    parent = r.choice(["app", "core", "data"])
+    sub = r.choice(["model", "net"])
+    spaces = {"top": [(c,) for c in comps], "under-parent": [(parent, c) for c in comps], "as-parent": [(c, sub) for c in comps],
+              "both-levels": [(c, d) for c in comps[:2] for d in comps[:2]]}[layout]
+    names = r.sample(["settings", "state", "handler", "oops", "mask"], r.choice([2, 3]))
+    tg = r.choice([" +cpp", " +java", " +objc", " +cppcli", ""])
+    lines = []
+    for k, ns in enumerate(spaces):
+        body = []
+        for n in names:
+            if n == "settings":
+                body.append(f"settings = record {{ f{k}: {r.choice(['i32', 'string', 'bool'])}; g: i64; }}")
+            elif n == "state":
+                body.append("state = enum { " + " ".join(f"item_{c}_{k};" for c in "ab") + " }")
+            elif n == "mask":
+                body.append("mask = flags { " + " ".join(f"flag_{c}_{k};" for c in "ab") + " }")
+            elif n == "oops":
+                body.append(f"oops = error {{ code_{k}; }}")
+            else:
+                body.append(f"handler = interface{tg} {{ m{k}(p0: i32) -> bool; notify(cb: (v{k}: i32) -> bool); }}")
+        if r.random() < 0.5:
+            lines.append(f"namespace {'.'.join(ns)} {{")
+            lines += ["  " + b for b in body]
+            lines.append("}")
+        else:
+            lines += [f"{'  ' * j}namespace {c} {{" for j, c in enumerate(ns)]
+            lines += ["  " * len(ns) + b for b in body]
+            lines += [f"{'  ' * j}}}" for j in reversed(range(len(ns)))]
+    text = "\n".join(lines) + "\n"
+    naming = ["default", "default", "random", "prefixed"][i % 4]
+    targets = list(sysgen.TARGETS)
+    r.shuffle(targets)
+    opts = sysgen.make_options(r, targets, out_kind="rel", naming=naming, extras=False)
+    opts["generate"]["support_lib_sources"] = False
+    job = job_of({"proj/main.pydjinni": text}, "proj/main.pydjinni", opts, targets)
+    return job, {"stress": f"keyword-namespace:{layout}", "naming": naming, "targets": targets, "features": [], "refusal_ok": True,
+                 "keyword": w, "look_alikes": alikes}
+
+
+def refused(rec) -> bool:
+    """a call that ended in a diagnostic (an `ApplicationException` / a list of them), not in an internal error"""
+    return not rec["ok"] and not rec.get("skipped") and ((rec["exc"] or {}).get("app", False) or (rec["exc"] is None and bool(rec["diags"])))
+
+
+def generated_targets(job, meta, obs):
+    """the targets whose generate call ran to its end (all of them unless the stream allows refusals)"""
+    if not meta.get("refusal_ok"):
+        return meta["targets"]
+    return [c["target"] for c, rec in zip(job["calls"], obs["calls"]) if c["op"] == "generate" and rec["ok"]]
+
+
 def match_sigs(job, defs):
     """inline function types of the family stream: declaration index -> index into job["sigs"] (by source line; the outermost
     function type of a line is the member, function-typed parameters inside it are not described)"""
@@ -549,6 +665,10 @@ def requests(job, meta, obs, tables):
     out = [{"op": "c15.spec", "log": log},
            {"op": "c15.names", "gens": obs["cfg"][0], "targets": meta["targets"], "defs": sdefs,
             "support": tables["support"], "supportLib": obs["meta"][0]["supportLib"]}]
+    if meta.get("refusal_ok"):
+        # collisions are predicted for every target (a refused call may have written before it gave up), the write list for
+        # the targets that were generated to the end
+        out.append({**out[1], "targets": generated_targets(job, meta, obs)})
     if job.get("sigs"):
         # the written signatures of the inline function types; the target keys in the order the parser is given them
         out.append({"op": "c15.anon", "keys": list(tables["targets"]), "sigs": [x["sig"] for x in job["sigs"]]})
@@ -565,12 +685,14 @@ def evaluate(ctx, job, meta, obs, tables, answers=None):
         if "error" in a:
             raise RuntimeError(f"driver error {a}")
     s, m = answers[0], answers[1]
-    anon = answers[2] if len(answers) > 2 else None
+    rest = answers[2:]
+    mw = rest.pop(0) if meta.get("refusal_ok") else m        # the model's write list (see `requests`)
+    anon = rest[0] if rest else None
     sig_of = match_sigs(job, pdefs) if anon else {}
     pair = {(q["i"], q["j"]): q for q in anon["pairs"]} if anon else {}
     fails = []
     for c, rec in zip(job["calls"], obs["calls"]):
-        if not rec["ok"] and not rec.get("skipped"):
+        if not rec["ok"] and not rec.get("skipped") and not (meta.get("refusal_ok") and refused(rec)):
             fails.append({"key": "run-failed:" + (rec["exc"] or {}).get("cls", "diagnostics"), "detail": json.dumps(rec.get("exc") or rec["diags"][:2])[:300]})
     by_path = {}
     for c in m["collisions"]:
@@ -593,6 +715,9 @@ def evaluate(ctx, job, meta, obs, tables, answers=None):
                     lost.append(f"{qn(sdefs, i)}" + (f" = `{spell_sig(job['sigs'][k]['sig'])}` (line {job['sigs'][k]['line']})" if k is not None else "") + f", expected at {q}")
                 why += " — receives the files of declarations with different names, whose own files were not written: " + "; ".join(lost)
                 extra = {"declarations": [qn(sdefs, i) for i, _ in gone[:8]], "expected_paths": [q for _, q in gone[:8]]}
+            if meta.get("keyword"):
+                why += (f" — the program has namespace components named like the reserved word '{meta['keyword']}' and like what an escaping would turn it "
+                        f"into ({', '.join(meta['look_alikes'])}): distinct namespaces must give distinct files or the target must be refused")
             fails.append({"key": "overwrite:unexplained", "detail": p + why, "path": p, **extra})
             continue
         c = cs[0]
@@ -607,7 +732,7 @@ def evaluate(ctx, job, meta, obs, tables, answers=None):
             if c2["cause"] == "duplicate-declaration" and c2["first"] in sig_of and c2["second"] in sig_of:
                 a, b = sorted((sig_of[c2["first"]], sig_of[c2["second"]]))
                 q = pair.get((a, b))
-                if q and q["cause"] != "duplicate-declaration":
+                if q and q["cause"] not in ("duplicate-declaration", "identical-declaration"):
                     sa, sb = job["sigs"][a], job["sigs"][b]
                     key = "overwrite:" + q["cause"]
                     detail = (f"{p} receives the files of the inline function types `{spell_sig(sa['sig'])}` (line {sa['line']}) and "
@@ -616,13 +741,36 @@ def evaluate(ctx, job, meta, obs, tables, answers=None):
                     extra = {"signatures": [spell_sig(sa["sig"]), spell_sig(sb["sig"])], "differ_in": q["diff"], "model_names_equal": q["sameName"]}
                     c = c2
                     break
+        # the same declaration twice: two inline function types of one namespace AND one file that are written alike, parameter
+        # names and all. What is rendered is a function of the declaration — wherever it stands — so the writes have to be
+        # byte-identical; this is not the finding about equal types from different files / under different parameter names.
+        # Every pair of writers of the path is looked at (the digests that differ may belong to any two of them).
+        if key == "overwrite:duplicate-declaration":
+            writers = sorted({i for c2 in by_path.get(p, []) if c2["cause"] == "duplicate-declaration" and c2["g"] == c["g"] for i in (c2["first"], c2["second"])})
+            same = [(a, b) for a in writers for b in writers if a < b and identical_declarations(pdefs, a, b)]
+            # family stream: the model's verdict on the *written* signatures (`anonCause` = identical-declaration) has to agree
+            for a, b in same:
+                if a in sig_of and b in sig_of:
+                    q = pair.get(tuple(sorted((sig_of[a], sig_of[b]))))
+                    if q and q["cause"] != "identical-declaration":
+                        same = [x for x in same if x != (a, b)]
+            digests = [e[1] for e in log if e[0] == p]
+            # every writer of the path writes it once per kind; the writers that are one declaration must not disagree
+            if same and len(writers) and differing_among(writers, same, digests):
+                a, b = same[0]
+                key = "overwrite:identical-declarations-differ"
+                detail = (f"{p} is written by {qn(defs, a)} at {pdefs[a]['src']['file']}:{pdefs[a]['src']['line']} and again by the same declaration at line "
+                          f"{pdefs[b]['src']['line']} (same namespace, same file, same signature, same parameter names) with different contents ({c['g']}, {c['kind']})")
+                extra = {"lines": [pdefs[a]["src"]["line"], pdefs[b]["src"]["line"]], "digests": sorted(set(digests))[:4]}
         fails.append({"key": key, "detail": detail, "path": p, "collision": c, **extra})
     # correspondence
     diffs = []
     ipaths = sorted(e[0] for e in log)
-    if ipaths != sorted(m["writes"]):
-        diffs.append({"what": "written paths (multiset)", "only_impl": sorted(set(ipaths) - set(m["writes"]))[:5],
-                      "only_model": sorted(set(m["writes"]) - set(ipaths))[:5], "n_impl": len(ipaths), "n_model": len(m["writes"])})
+    if meta.get("refusal_ok"):      # what a refused generate call wrote before it gave up is not predicted
+        ipaths = sorted(e[1] for c, rec in zip(job["calls"], obs["calls"]) if rec["ok"] for e in rec["log"])
+    if ipaths != sorted(mw["writes"]):
+        diffs.append({"what": "written paths (multiset)", "only_impl": sorted(set(ipaths) - set(mw["writes"]))[:5],
+                      "only_model": sorted(set(mw["writes"]) - set(ipaths))[:5], "n_impl": len(ipaths), "n_model": len(mw["writes"])})
     if anon:
         # the synthetic name the parser built vs `anonName` of the written signature
         wrong = [{"line": job["sigs"][k]["line"], "signature": spell_sig(job["sigs"][k]["sig"]), "impl": pdefs[i]["name"], "model": anon["names"][k]}
@@ -639,6 +787,22 @@ def evaluate(ctx, job, meta, obs, tables, answers=None):
     if not set(s["overwritten"]) <= set(by_path):
         diffs.append({"what": "overwritten path not predicted as a collision", "paths": sorted(set(s["overwritten"]) - set(by_path))[:5]})
     return s, m, fails, diffs, predicted
+
+
+def identical_declarations(pdefs, a, b) -> bool:
+    da, db = pdefs[a], pdefs[b]
+    return (da.get("written") is not None and da.get("written") == db.get("written") and da["ns"] == db["ns"] and da["name"] == db["name"]
+            and (da.get("src") or {}).get("file") is not None and da["src"]["file"] == db["src"]["file"])
+
+
+def differing_among(writers, same, digests) -> bool:
+    """`digests`: the contents the path received, in writing order — one per writer (declaration order) if every writer wrote
+    once. True if two writers that are the same declaration left different contents; if the writes cannot be attributed
+    (another count), any difference counts as long as ALL writers are one declaration."""
+    if len(digests) == len(writers):
+        at = {w: d for w, d in zip(writers, digests)}
+        return any(at[a] != at[b] for a, b in same)
+    return len(same) == len(writers) * (len(writers) - 1) // 2 and len(set(digests)) > 1
 
 
 def qn(defs, i):
@@ -659,6 +823,8 @@ def run(ctx):
         cases.append(family_case(f"{ctx.seed}/c15/family/{i}", i))
     for i in range(ctx.n(24, 240)):
         cases.append(qualified_case(f"{ctx.seed}/c15/qualified/{i}", i))
+    for i in range(ctx.n(40, 400)):
+        cases.append(keyword_case(f"{ctx.seed}/c15/keyword/{i}", i, tables))
     results = sysgen.run_jobs(ctx, [c[0] for c in cases], tag="c15")
     breaks = []
     for obs in results:
@@ -677,6 +843,12 @@ def run(ctx):
         ctx.stat("naming=" + meta["naming"])
         for c in causes:
             ctx.stat("predicted " + c)
+        if meta.get("refusal_ok"):
+            ctx.stat("keyword_namespace_cases")
+            nref = sum(1 for rec in obs["calls"] if refused(rec))
+            ctx.stat("keyword_namespace_generate_calls_refused", nref)
+            ctx.stat("keyword_namespace_generate_calls_completed", sum(1 for c, rec in zip(job["calls"], obs["calls"]) if c["op"] == "generate" and rec["ok"]))
+            ctx.stat("keyword_namespace_files_written_before_a_refusal", sum(len(rec["log"]) for rec in obs["calls"] if refused(rec)))
         ctx.stat("runs_with_overwrite", 1 if s["overwritten"] else 0)
         ctx.stat("paths_overwritten", len(s["overwritten"]))
         ctx.stat("files_written", len(m["writes"]))
